@@ -7,7 +7,7 @@ import time
 import warnings
 from typing import Any
 
-from .. import semgen, semlean, semrun
+from .. import semfam, semgen, semlean, semrun
 from ..common import hx, unhx
 from ..runner import Check
 from ..translate import constraints as tconstraints
@@ -704,6 +704,39 @@ def campaign_random(ck: Check, n: int) -> None:
     camp.wall_s = time.time() - t0
 
 
+def campaign_lattice(ck: Check, n: int) -> None:
+    """`required` next to `allOf` naming INHERITED members, over inheritance lattices (several `$ref` bases, depth
+    >= 2, diamonds): the member must be required in the generated class — the missing-member mutation rejected,
+    `required` reported — wherever in the lattice it is declared (Parser.__override_required_field / _find_field)"""
+    camp = ck.campaign("e2e oracle, family: allOf with several $ref bases × inheritance depth >= 2 × `required` naming inherited members at every position of the base lattice")
+    t0 = time.time()
+    rng = ck.rng.fork("fam-lattice")
+    off = rng.below(96)
+    for i in range(n):
+        doc, feats, where = semfam.lattice_doc(rng.fork(str(i)), off + i)
+        for f in feats:
+            camp.hit(f"feature:{f}")
+        insts = semgen.valid_instances(doc)
+        muts = []
+        for inst in insts[:2]:
+            muts += semgen.mutations(doc, inst)
+        seen = set()
+        for m in muts:
+            if m.keyword == "required":
+                holder = m.path[0] if len(m.path) > 1 else ""
+                pos = (where.get(holder) or {}).get(m.path[-1])
+                if pos is not None and (holder, m.path[-1]) not in seen:
+                    seen.add((holder, m.path[-1]))
+                    camp.hit("missing_member_mutation:" + ("own" if pos[0] < 0 else f"base{min(pos[0], 2)}_up{min(pos[1], 3)}"))
+        missing = [(h, nm) for h, names in where.items() for nm in names if (h, nm) not in seen]
+        if missing:
+            camp.hit("required_name_without_confirmed_mutation", len(missing))
+        for st in STYLES:
+            for r in ROUTINGS:
+                oracle_doc(ck, camp, doc, st, r, insts, muts)
+    camp.wall_s = time.time() - t0
+
+
 # ============================================================ search, findings, replay
 def search_broken_keyword(ck: Check) -> None:
     """model-side refuter → implementation-side oracle on a document built around that keyword"""
@@ -762,6 +795,7 @@ def run(ck: Check) -> None:
     campaign_pfields(ck, 60 if quick else 600)
     campaign_focused(ck)
     campaign_random(ck, 80 if quick else 1200)
+    campaign_lattice(ck, 14 if quick else 150)
     ck.search_hooks.append(search_broken_keyword)
     known_findings(ck)
 
